@@ -590,6 +590,15 @@ def body_stage(case):
             where = "one object" if which == "interleave" else "two objects of one configuration"
             if check_overlapping(lambda: stage.call(obj, mine, c), lambda: stage.call(obj_b, theirs, c), case.get("preempt", [3]), f"{stage.name} ({n} events, {where})"):
                 labels.add("overlapping_calls" if which == "interleave" else "overlapping_calls_two_objects")
+        elif which == "caller_state":
+            # the CALLER's process-wide numpy settings differ from the defaults: floating-point errors raise (divide,
+            # invalid, overflow - underflow stays, exp() of large negative numbers is everywhere), legacy print mode with
+            # three digits: same results, no exception
+            with np.errstate(divide="raise", invalid="raise", over="raise"), np.printoptions(legacy="1.13", precision=3):
+                with cut(f"{stage.name} (caller runs with np.errstate(divide/invalid/over='raise') and legacy print options)"):
+                    r = [np.asarray(o) for o in stage.call(obj, tuple(np.array(a) for a in arrays), c)]
+            want = base
+            labels.add("caller_numpy_state")
         elif which == "copied":
             # copies of the module object (copy.copy, copy.deepcopy - what a user keeps as a "snapshot", what some task
             # frameworks make) behave like the object
@@ -846,7 +855,7 @@ def stage_case(names, sizes):
             "c": st.floats(0.01, 0.99),
             "perm": st.lists(st.floats(0.0, 1.0), min_size=16, max_size=16),
             "split": st.sampled_from(["0", "1", "n-1", "n", "0.5", "0.37", "0.9", "0.41"]),
-            "history": st.lists(st.sampled_from(["same", "perm", "half", "refill", "refill", "scribble", "alt", "other", "other", "strided", "reject", "reject", "bigendian", "fortran2d", "transposed2d", "churn", "interleave", "interleave", "interleave_other", "interleave_other", "float32", "copied", "column", "masked"]), min_size=1, max_size=6),
+            "history": st.lists(st.sampled_from(["same", "perm", "half", "refill", "refill", "scribble", "alt", "other", "other", "strided", "reject", "reject", "bigendian", "fortran2d", "transposed2d", "churn", "interleave", "interleave", "interleave_other", "interleave_other", "float32", "copied", "column", "masked", "caller_state"]), min_size=1, max_size=6),
             "preempt": st.lists(st.one_of(st.integers(0, 40), st.integers(0, 400), st.integers(0, 6000)), min_size=1, max_size=3),
         }
     )
